@@ -5,6 +5,7 @@ import (
 	"flag"
 	"fmt"
 	"os"
+	"runtime"
 	"runtime/debug"
 	"strings"
 	"testing"
@@ -26,6 +27,7 @@ var (
 	fKnown  = flag.String("sim.known", "/verif/known_findings.txt", "known findings file")
 	fDump   = flag.Bool("sim.dumplog", false, "print event log")
 	fMode   = flag.String("sim.mode", "search", "search|replay|logs")
+	fHang   = flag.Duration("sim.hang", 90*time.Second, "real-time watchdog per run")
 )
 
 var curT *testing.T
@@ -118,7 +120,10 @@ func TestSim(t *testing.T) {
 		}
 		seed := *fSeed0 + int64(i)**fStride
 		plan := eng.Gen(*fProp, seed, *fTier)
-		res := eng.Run(plan)
+		res := runWatched(eng, plan, out)
+		if res == nil {
+			return
+		}
 		out.Evaluations++
 		for k, v := range res.Stats {
 			out.Stats[k] += v
@@ -225,4 +230,57 @@ func loadKnown(path string) map[string]bool {
 		}
 	}
 	return m
+}
+
+// runWatched runs one plan under a real-time watchdog. A run that does not
+// return is reported as a hang violation of the property under check with the
+// goroutine dump of the stuck DefraDB frames (the process then exits: a bubble
+// cannot be aborted).
+func runWatched(eng Engine, plan *Plan, out *workerOut) *Result {
+	done := make(chan *Result, 1)
+	go func() { done <- eng.Run(plan) }()
+	select {
+	case r := <-done:
+		return r
+	case <-time.After(*fHang):
+		buf := make([]byte, 1<<22)
+		n := runtime.Stack(buf, true)
+		site := hangSite(string(buf[:n]))
+		out.Violation = &Violation{Prop: plan.Prop, Clause: "hang", Class: "hang/" + site, Step: -1,
+			Detail: fmt.Sprintf("run did not finish within %v of real time; a goroutine of the system is blocked on a lock at %s", *fHang, site)}
+		out.ViolPlan = plan
+		out.MinPlan = plan
+		fmt.Printf("FOUND property=%s seed=%d class=%s\n", plan.Prop, plan.Seed, out.Violation.Class)
+		if *fOut != "" {
+			b, _ := json.MarshalIndent(out, "", " ")
+			_ = os.WriteFile(*fOut, b, 0o644)
+		}
+		os.Exit(0)
+	}
+	return nil
+}
+
+// hangSite finds the innermost DefraDB frame of a goroutine of a bubble that is
+// blocked on a mutex (the state synctest cannot treat as durably blocked).
+func hangSite(dump string) string {
+	for _, g := range strings.Split(dump, "\n\n") {
+		head, _, _ := strings.Cut(g, "\n")
+		if !strings.Contains(head, "synctest bubble") || strings.Contains(head, "durable") {
+			continue
+		}
+		if !strings.Contains(head, "Mutex") && !strings.Contains(head, "semacquire") {
+			continue
+		}
+		for _, l := range strings.Split(g, "\n") {
+			if strings.Contains(l, "sourcenetwork/defradb/") && !strings.Contains(l, "verifsim") && !strings.HasPrefix(l, "\t") {
+				i := strings.LastIndex(l, "/")
+				l = l[i+1:]
+				if j := strings.Index(l, "("); j > 0 {
+					l = l[:j]
+				}
+				return l
+			}
+		}
+	}
+	return "unknown"
 }
